@@ -12,7 +12,6 @@
 
 #include "libyang.h"
 #include "proto.h"
-#include "ncwd_yang.h"
 
 #define TP_MAXNODES 512
 #define TP_FLAGMASK (LYD_DEFAULT | LYD_WHEN_TRUE | LYD_NEW)
@@ -99,12 +98,13 @@ tp_schema_register(const char *key, const char *yang)
 {
     struct tp_schema *s = tp_schema_get(key);
     const struct lysc_node *n;
+    const char *dir = getenv("VERIF_YANG_DIR");      /* <repo>/tests/modules/yang, set by the check modules */
 
     if (s) return s;
     s = calloc(1, sizeof *s);
-    if (ly_ctx_new(NULL, 0, &s->ctx)) { free(s); return NULL; }
-    /* for the tagged with-defaults print modes (DESIGN §8) */
-    if (lys_parse_mem(s->ctx, TP_NCWD_YANG, LYS_IN_YANG, NULL)) { ly_ctx_destroy(s->ctx); free(s); return NULL; }
+    if (ly_ctx_new(dir, 0, &s->ctx)) { free(s); return NULL; }
+    /* the tagged with-defaults print modes need ietf-netconf-with-defaults in the context (DESIGN §8) */
+    if (dir && !ly_ctx_load_module(s->ctx, "ietf-netconf-with-defaults", NULL, NULL)) { ly_ctx_destroy(s->ctx); free(s); return NULL; }
     if (lys_parse_mem(s->ctx, yang, LYS_IN_YANG, &s->mod)) { ly_ctx_destroy(s->ctx); free(s); return NULL; }
     for (n = s->mod->compiled->data; n; n = n->next) {
         tp_schema_walk(s, n);
